@@ -51,6 +51,30 @@ REG = {
     text="The reader is made to fail at every byte offset of generated small files and at every line position of every enumerated file; the parser "
          "and every command must return an error, and the records delivered before it must be a prefix of the complete file's.",
     note="Offsets exhaustive for files <= 160 bytes, every third offset beyond. On the binary a read failure is realised as an over-long line or a missing file."),
+ "C02": dict(
+    level="model_checking", design="5/C02",
+    technique="TLA+ spec Reporters.tla (operational reporters vs. declarative RegisterExact, action property DayOutputLocal) checked exhaustively by TLC; every terminal state rendered to files and replayed through reg (3 renderings) and summary",
+    text="TLC decides on every enumerated log that the register chunk (foods in first-appearance order with summed quantities, ingredient rows, "
+         "signed totals) equals its declarative definition; the real commands are held to the predicted rows, parsed exactly.",
+    note="Bounded: first day <= 3 entries over 3 foods x 5 quantities, a few second days; flat resolved book (nesting is C01's). Trusted: row parsers, dyadic units."),
+ "C03": dict(
+    level="model_checking", design="5/C03",
+    technique="TLA+ spec Balance.tla (AddDeep, printNode, getJump/printNodeCollapsed, single-element variant) checked exhaustively by TLC over all small path sets; every terminal state replayed through the six balance command shapes",
+    text="Conservation (ParentIsOwnPlusChildren, GrandTotalIsTopLevelSum), EachPathOnce, SiblingsSorted, ModesAgreeOnLeaves and NoBranchDropped are "
+         "invariants over every log of <= 3-4 entries on 14 names; the real balance output is compared row by row with the predicted rows.",
+    note="Outside the prefix-free clause only 'no branch dropped' is compared for the collapse modes (the statement fixes nothing more there). Bounded: 2 segments, depth 3."),
+ "C17": dict(
+    level="fault_enumeration", design="5/C17",
+    technique="TLA+ spec Sink.tla (bufio buffer over a failing sink, both flush disciplines) checked by TLC incl. refinement of the sink interface; fault enumeration: every command shape x sink failing from every byte offset, runs validated as traces against Trace_Sink.tla; /dev/full and closed pipe on the binary",
+    text="SuccessImpliesAllBytesAccepted is decided on the buffer model for every failure offset; on the real commands the sink is made to fail from every byte "
+         "offset of small reports and a boundary-heavy sample of multi-buffer reports, and the exit status is checked against the recorded sink writes.",
+    note="Offsets exhaustive for reports <= 400 bytes; sampled (buffer boundaries +- 1, every ~97th) beyond."),
+ "C18": dict(
+    level="model_checking", design="5/C18",
+    technique="TLA+ spec ChanParser.tla (producer goroutine and consumer loop over three unbuffered channels) checked by TLC for every interleaving (safety + liveness under weak fairness); real ParseStream/ParseFile executions with scheduling jitter recorded and validated against Trace_ChanParser.tla (thorough: under the race detector)",
+    text="Every interleaving of the two processes is explored for every scenario of <= 4 callback events, three entry kinds and both consumer policies; "
+         "recorded receive sequences of the real adapter must be behaviours of the specification (producer steps are silent).",
+    note="What happens to the producer after a consumer that stops at the first error, and a draining consumer of ParseFile on an unreadable path, are outside the statement and not judged."),
 }
 
 
